@@ -6,6 +6,7 @@
 #include <lp/lp.h>
 #include <verif/hooks.h>
 
+#include <pthread.h>
 #include <signal.h>
 #include <stdio.h>
 #include <stdlib.h>
@@ -62,6 +63,58 @@ static void on_sig(int s)
 	fprintf(out, "{\"e\":\"Crash\",\"sig\":%d}\n", s);
 	fflush(out);
 	_exit(0);
+}
+
+/* truly concurrent queries: NT threads, one LP (generator) each, the same topology object; every thread's sequence of random neighbours
+ * must be the one the same generator state yields when the thread runs alone (purity: no state shared between the calls of different LPs) */
+#define NT 4
+#define NCALLS 60000
+static struct lp_ctx cfake[NT];
+static struct rng_ctx crng[NT];
+static struct topology *ctopo;
+static lp_id_t cres[NT][NCALLS];
+static unsigned cn;
+static pthread_barrier_t cbar;
+static void *conc_thread(void *arg)
+{
+	int me = (int)(intptr_t)arg;
+	current_lp = &cfake[me];
+	pthread_barrier_wait(&cbar);
+	for(int k = 0; k < NCALLS; ++k)
+		cres[me][k] = GetReceiver((lp_id_t)((unsigned)(k * 7 + me) % cn), ctopo, DIRECTION_RANDOM);
+	return NULL;
+}
+static void concurrent_part(int g, unsigned w, unsigned h)
+{
+	static lp_id_t ref[NT][NCALLS];
+	ctopo = InitializeTopology((enum topology_geometry)g, h, w);
+	cn = w * h;
+	for(int i = 0; i < NT; ++i) {
+		cfake[i].rng_ctx = &crng[i];
+		random_lib_lp_init((lp_id_t)(100 + i), &crng[i]);
+	}
+	for(int i = 0; i < NT; ++i) { /* alone */
+		current_lp = &cfake[i];
+		for(int k = 0; k < NCALLS; ++k)
+			ref[i][k] = GetReceiver((lp_id_t)((unsigned)(k * 7 + i) % cn), ctopo, DIRECTION_RANDOM);
+	}
+	for(int i = 0; i < NT; ++i)
+		random_lib_lp_init((lp_id_t)(100 + i), &crng[i]);
+	pthread_barrier_init(&cbar, NULL, NT);
+	pthread_t th[NT];
+	for(int i = 0; i < NT; ++i)
+		pthread_create(&th[i], NULL, conc_thread, (void *)(intptr_t)i);
+	long mism = 0, invalid = 0;
+	for(int i = 0; i < NT; ++i)
+		pthread_join(th[i], NULL);
+	for(int i = 0; i < NT; ++i)
+		for(int k = 0; k < NCALLS; ++k) {
+			mism += cres[i][k] != ref[i][k];
+			invalid += cres[i][k] == INVALID_DIRECTION && ref[i][k] != INVALID_DIRECTION;
+		}
+	fprintf(out, "{\"e\":\"Conc\",\"g\":%d,\"w\":%u,\"h\":%u,\"threads\":%d,\"calls\":%d,\"mismatch\":%ld,\"invalid\":%ld}\n", g, w, h, NT, NCALLS, mism, invalid);
+	ReleaseTopology(ctopo);
+	current_lp = &fake[0];
 }
 
 int main(int argc, char **argv)
@@ -137,6 +190,8 @@ int main(int argc, char **argv)
 			ReleaseTopology(t);
 		}
 	}
+	for(int g = 1; g <= 3; ++g)
+		concurrent_part(g, 4, 5);
 	fclose(out);
 	return 0;
 }
